@@ -372,6 +372,9 @@ TITLES = [("p-title", '<p class="title">T *t*</p>', "T *t*"), ("div-title", '<di
           ("p-subtitle", '<p class="subtitle">S6</p>', ("Note", "S6")), ("p-card-title", '<p class="card-title untitled">S7</p>', ("Note", "S7"))]
 BODIES = [([], ""), (["body *em* `c`"], "body *em* `c`\n"), (["one", "two **s**"], "one\n\ntwo **s**\n"),
           (["- a\n- b"], "- a\n- b\n"), (["[l](u) $x$ {#id}"], "[l](u) $x$ {#id}\n"),
+          # an attribute with an explicitly EMPTY value keeps it; a <p> written over several lines is still one paragraph of its own
+          (["link <a href=\"\" title=\"x\">l</a> end"], "link <a href=\"\" title=\"x\">l</a> end\n"),
+          (["one\nmore\n", "two **s**"], "one\nmore\n\ntwo **s**\n"),
           # explicitly closed EMPTY elements inside the body are written back as they were
           (["icon <i class=\"fa\"></i> tail", "<span id=\"x\"></span>"], "icon <i class=\"fa\"></i> tail\n\n<span id=\"x\"></span>\n")]
 ADM_ATTRS = [("", []), (" note", []), ("\twarning", []), ("\nwarning  extra", []), (" warning extra", []), ("", [("name", "nm")]), (" tip", [("name", "n-2"), ("id", "i")]), ("", [("title", "tt")])]
